@@ -827,7 +827,7 @@ class CallMixin:  # pylint:disable=too-many-public-methods
             return GatherVal(list(args))
         if name in ("inspect.isawaitable", "asyncio.iscoroutine", "inspect.iscoroutine"):
             v = args[0]
-            if isinstance(v, (CoroVal, GatherVal)):
+            if isinstance(v, (CoroVal, GatherVal)) or (isinstance(v, Ready) and name == "inspect.isawaitable"):
                 return True
             if isinstance(v, Opaque):
                 return self.fork(("awaitable", v.oid), f"isawaitable({v.label})")
